@@ -449,7 +449,9 @@ def rule_set_inproc(ctx, cfg, F):
                 names = set()
                 from vlib.flow import chain_calls
                 names = chain_calls(sel, st["rv"]["a"][0])
-                one = any("box_assume_init_into_vec" in n or "into_vec" in n or n.endswith("from_elem") for n in names) or any(r.kind == "agg" and r.id == "array" for r in trs.roots_of_operand(st["rv"]["a"][0]))
+                rts = trs.roots_of_operand(st["rv"]["a"][0])
+                one = any("box_assume_init_into_vec" in n or "into_vec" in n or n.endswith("from_elem") for n in names) or any(r.kind == "agg" and r.id == "array" for r in rts) or \
+                    (bool(rts) and all(r.kind == "call" and ("into_vec" in r.id or r.id.endswith("from_elem")) for r in rts))     # (the vector handed through an inner Result)
                 if not one:
                     bad = "an Ok return of select is not a one-element vec![..]"
     # (counted: the kinds of event select can report -- data and closed -- however many Ok returns they are funnelled through)
